@@ -122,7 +122,7 @@ PROPS = {
                 "families unknown, only the multi-cause families unknown}. Non-trivial = at least one multi-cause node and at least 4 visible layers. Part join-nils "
                 "enumerates Join/JoinWithDepth with 0-6 nil arguments exhaustively. Distinct = hash of the case JSON.",
         "assumptions": ["the C08 mark model for the self-match of a multi-cause node"],
-        "parts": [rapid("multi-tree", "TestProp", 6000, 48000), plain("join-nils", "TestJoinNils")],
+        "parts": [rapid("multi-tree", "TestProp", 6000, 16000), plain("join-nils", "TestJoinNils")],
     },
     "C14": {
         "pkg": "c14",
